@@ -3,8 +3,9 @@
 usage: tools/save_seed.py <id> <property> '<needs>' '<caught-by summary>'"""
 import json, os, shutil, subprocess, sys
 sid, prop, needs, caught = sys.argv[1:5]
-src = "/tmp/seed-%s-out" % sid
-dst = "/verif/seeded/%s" % sid
+PFX = os.environ.get("PFX", "seed")
+src = "/tmp/%s-%s-out" % (PFX, sid)
+dst = "/verif/seeded/%s%s" % (sid, "-2" if PFX == "seed2" else "")
 os.makedirs(dst, exist_ok=True)
 for name in os.listdir(src):
     p = os.path.join(src, name)
@@ -15,14 +16,14 @@ for name in os.listdir(src):
         shutil.copytree(p, d2, ignore=shutil.ignore_patterns("_build*", "*.o", "*.a", "CMakeFiles"))
     elif os.path.getsize(p) < 400000 and not (os.access(p, os.X_OK) and not name.endswith((".sh", ".py"))):
         shutil.copy(p, os.path.join(dst, name))
-log = "/var/tmp/nv-mut/confirm-%s.log" % sid
+log = "/var/tmp/nv-mut/confirm-%s-%s.log" % (PFX, sid)
 conf = open(log, errors="replace").read() if os.path.exists(log) else ""
 result = [l for l in conf.splitlines() if l.startswith("RESULT")]
-meta = dict(id=sid, property=prop, base_commit=subprocess.run(["git", "-C", "/tmp/seed-%s" % sid, "rev-parse", "HEAD"], capture_output=True, text=True).stdout.strip(),
+meta = dict(id=os.path.basename(dst), property=prop, base_commit=subprocess.run(["git", "-C", "/tmp/seed-%s" % sid, "rev-parse", "HEAD"], capture_output=True, text=True).stdout.strip(),
             needs_to_manifest=needs,
             confirmed=dict(how="tools/confirm_seed.sh %s in the sub-agent's scratch worktree: patch applied, project built, ctest -j8 passed, run_demo.sh with the change "
                                "(exit status 'with') and after reverting it (exit status 'without')" % sid, result=result[-1] if result else "not run"),
             checks=caught,
-            apply="git -C /repo apply /verif/seeded/%s/patch.diff ; ./check %s --tier quick ; git -C /repo checkout -- ." % (sid, prop))
+            apply="git -C /repo apply %s/patch.diff ; ./check %s --tier quick ; git -C /repo checkout -- ." % (dst, prop))
 json.dump(meta, open(os.path.join(dst, "meta.json"), "w"), indent=1)
 print("saved", dst, result[-1:] )
